@@ -143,6 +143,9 @@ def generate(rng, tier, rep):
              'topname': rng.choice(['c%d' % i, 'tests', 'c%d' % i])}
         if cli:
             names = module_names(c)
+            pkgs = set('.'.join(x.split('.')[:k]) for x in names for k in range(1, x.count('.') + 1))
+            if pkgs & set(names):
+                continue      # a module of one root has the name of a package of another: Python would import only one of them
             if len(names) != len(set(names)) or package_clash(c) or {'fw', 'treelib', 'props', 'zope'} & set(x.split('.')[0] for x in names):
                 continue
         cases.append(c)
